@@ -3,7 +3,8 @@
 spec/ZConn.tla: the savepoint store (TmpStore: position, index, creating map, savepoint blob files), the state
 tuple of every live savepoint, Savepoint, Rollback(k) (repeated, to earlier savepoints after later ones, through
 an AbortSavepoint for a connection that joined after the savepoint), commit through the savepoint store (CommitSp),
-conflict during that commit, abort.  Clauses: RollbackRestores (rollback-owner, rollback-value: right after
+conflict during that commit, a savepoint() / the savepoint commit() takes first raising part-way (SavepointRaises,
+CommitSpRaises), abort.  Clauses: RollbackRestores (rollback-owner, rollback-value: right after
 Rollback(k) ownership, value on access, root contents and blob bytes equal the snapshot taken at Savepoint(k)),
 CommitStoresFinalStates / abort discards everything (stale, dirty-idle), NothingLeftBehind (leftover; the
 replayer also checks that the TmpStore file is closed and the savepoint blob directory removed),
@@ -16,6 +17,7 @@ CLAUSES = ('rollback-owner', 'rollback-value', 'stale', 'dirty-idle', 'serial', 
 DEVS = ('AliasCreating', 'SpBlobByName')        # the deviations whose clauses are this property's
 FOCUS = ('Rollback',)
 NEED = ['Modify', 'Link', 'Unlink', 'AddExplicit', 'Load', 'Savepoint', 'Rollback', 'Begin', 'CommitSp', 'CommitSpConflict',
+        'SavepointRaises', 'CommitSpRaises',
         'Store', 'Stored', 'Vote', 'Finish', 'Abort', 'OtherCommit']
 
 
@@ -29,11 +31,15 @@ def configs(q):
                       MaxAct=4, MaxTail=1, Ops=('sp', 'other', 'load'))
     blob = cd.consts(Obj=('k',) if q else ('a', 'k'), Blobs=('k',), Edges='EdgesBlob', MaxSp=2, MaxCommit=1, MaxAct=6 if q else 4,
                      MaxTail=1, Ops=('add', 'sp', 'load') if q else ('add', 'sp', 'load', 'free'))
+    # a savepoint() / the savepoint commit() takes first raising part-way (an unpicklable value), then abort
+    fail = cd.consts(Obj=('a', 'b'), Edges='EdgesFlat' if q else 'EdgesChain', MaxSp=2, MaxCommit=1, MaxAct=3 if q else 4, MaxTail=1,
+                     Ops=('add', 'sp', 'own'))
     return [('two-savepoints', two), ('repeated-rollback', rep), ('reachability', chain), ('conflict-at-commit', other),
-            ('blobs', blob)]
+            ('blobs', blob), ('failing-savepoint', fail)]
 
 
-BUDGET = {'two-savepoints': 32000, 'repeated-rollback': 32000, 'reachability': 30000, 'conflict-at-commit': 30000, 'blobs': 22000}
+BUDGET = {'two-savepoints': 26000, 'repeated-rollback': 26000, 'reachability': 24000, 'conflict-at-commit': 24000, 'blobs': 18000,
+          'failing-savepoint': 22000}
 
 
 def run(ctx):
